@@ -1555,9 +1555,26 @@ class Enumerator:
         params = [x.arg for x in a.posonlyargs + a.args]
         env = {}
         args = list(call.args)
+        star = None
+        dstar = None
+        # f(a, b, *rest, **kw) forwarding the caller's own var-args
+        if args and isinstance(args[-1], ast.Starred) and \
+                a.vararg is not None and not any(
+                    isinstance(x, ast.Starred) for x in args[:-1]):
+            n_pos = len(params) - (1 if (callee.cls is not None and not
+                                          callee.is_static) else 0)
+            if len(args) - 1 >= n_pos:
+                star = args[-1].value
+                args = args[:-1]
+        kws = list(call.keywords)
+        if kws and kws[-1].arg is None and a.kwarg is not None and not any(
+                k.arg is None for k in kws[:-1]):
+            dstar = kws[-1].value
+            kws = kws[:-1]
         if any(isinstance(x, ast.Starred) for x in args) or any(
-                k.arg is None for k in call.keywords):
+                k.arg is None for k in kws):
             return None
+        call = ast.Call(func=call.func, args=args, keywords=kws)
         bound_self = None
         if callee.cls is not None and not callee.is_static:
             if isinstance(call.func, ast.Attribute):
@@ -1577,9 +1594,12 @@ class Enumerator:
         if extra:
             if a.vararg is None:
                 return None
-            env[a.vararg.arg] = ast.Tuple(elts=extra, ctx=ast.Load())
+            env[a.vararg.arg] = ast.Tuple(elts=extra + (
+                [ast.Starred(value=star, ctx=ast.Load())] if star is not None
+                else []), ctx=ast.Load())
         elif a.vararg is not None:
-            env[a.vararg.arg] = ast.Tuple(elts=[], ctx=ast.Load())
+            env[a.vararg.arg] = star if star is not None else ast.Tuple(
+                elts=[], ctx=ast.Load())
         kwonly = [x.arg for x in a.kwonlyargs]
         extra_kw = []
         for k in call.keywords:
@@ -1596,9 +1616,14 @@ class Enumerator:
             if p not in env:
                 return None
         if a.kwarg is not None:
-            env[a.kwarg.arg] = ast.Dict(
-                keys=[ast.Constant(value=k.arg) for k in extra_kw],
-                values=[k.value for k in extra_kw])
+            if dstar is not None and not extra_kw:
+                env[a.kwarg.arg] = dstar
+            else:
+                env[a.kwarg.arg] = ast.Dict(
+                    keys=[ast.Constant(value=k.arg) for k in extra_kw] + (
+                        [None] if dstar is not None else []),
+                    values=[k.value for k in extra_kw] + (
+                        [dstar] if dstar is not None else []))
         return env
 
     def _inline(self, call, callee, st, handlers):
